@@ -96,6 +96,24 @@ def run(ctx):
                     ctx.violation('Constant.new_schedule.ends', 'unlimited constant schedule ended after %d items' % n_items, case=case, actual=n_items)
                 elif any(x != delay for x in got if x is not None):
                     ctx.violation('Constant.new_schedule.value', 'constant schedule yields a delay other than %r' % (delay,), case=case)
+                # state left over from an earlier schedule: every new_schedule() of the SAME policy object is a fresh schedule
+                s2, s3 = pol.new_schedule(), pol.new_schedule()
+                n_more = (ma + 2) if ma is not None else 50
+                inter = [[], []]
+                for _i in range(n_more):
+                    for w, sch in enumerate((s2, s3)):
+                        try:
+                            inter[w].append(next(sch))
+                        except StopIteration:
+                            inter[w].append(None)
+                first = [x for x in got if x is not None][:n_more]
+                for w in (0, 1):
+                    if [x for x in inter[w] if x is not None] != first and not any(isinstance(x, tuple) for x in got):
+                        ctx.violation('Constant.new_schedule.shared-between-schedules',
+                                      'ConstantReconnectionPolicy(%r, max_attempts=%r): schedule #%d of the same policy object yields %r, the first one yielded %r'
+                                      % (delay, ma, w + 2, [str(x) for x in inter[w][:6]], [str(x) for x in got[:6]]),
+                                      case=dict(case, schedules=3), expected=[str(x) for x in got[:6]], actual=[str(x) for x in inter[w][:6]], theorem='C24_limit')
+                        break
                 if ma is not None or True:
                     exp = ['(Some %s)' % q(delay)] * (ma if ma is not None else 5) + (['None'] if ma is not None else [])
                     cases.append('prefix_eqb (constant_schedule %s %s) 0 [%s]' % (q(delay), 'None' if ma is None else '(Some %d%%nat)' % ma, '; '.join(exp)))
@@ -111,9 +129,13 @@ def run(ctx):
         if ctx.tier == 'quick':
             ctx.rng.shuffle(combos)
             combos = combos[:28] + [(0.0, 600.0), (0, 600), (F(1, 2), F(10)), (1e-3, 1e9)]
+        # boundary ratios, every tier and every jitter script: max an exact power-of-two multiple of base (the curve reaches max exactly),
+        # and base*2^k < max < 1.15*base*2^k (an upward jitter on the last ramp item would overshoot max without the clamp)
+        special = [(1, 64), (1, 2), (F(1, 2), F(32)), (5, 10), (2.0, 128.0), (3, 100), (1, 9), (F(5), F(42)), (2, 70), (F(3), F(200))]
+        combos = combos + special
         for (b, m) in combos:
             for ma in ((None, 0, 1, 3, 64) if ctx.tier == 'thorough' else (None, 0, 3)):
-                for js in (jits if ctx.tier == 'thorough' else jits[::3] + [jits[-1]]):
+                for js in (jits if (ctx.tier == 'thorough' or (b, m) in special) else jits[::3] + [jits[-1]]):
                     P.randint = Jit(js)
                     pol = P.ExponentialReconnectionPolicy(b, m, max_attempts=ma)
                     n = (ma + 2) if ma is not None else N
@@ -150,6 +172,18 @@ def run(ctx):
                                 key, what = 'off-curve', 'item %d = %r outside the jitter band [%s, %s] of min(base*2^%d, max)' % (
                                     i, d, float(lo), float(hi), i)
                                 break
+                    if not key and js == [100] and ma != 0:
+                        # a second and third schedule of the SAME policy object, consumed alternately, equal the first
+                        s2, s3 = pol.new_schedule(), pol.new_schedule()
+                        k2 = min(len(got), 12)
+                        a2, a3 = [], []
+                        for _i in range(k2):
+                            a2.append(next(s2, None))
+                            a3.append(next(s3, None))
+                        first = [x for x in got if x is not None][:k2]
+                        if [x for x in a2 if x is not None] != first or [x for x in a3 if x is not None] != first:
+                            key, what = 'shared-between-schedules', 'later schedules of the same policy object yield %r / %r, the first one %r' % (
+                                [str(x) for x in a2[:5]], [str(x) for x in a3[:5]], [str(x) for x in got[:5]])
                     if key:
                         ctx.violation('Exponential.new_schedule.' + key,
                                       'ExponentialReconnectionPolicy(%r, %r, max_attempts=%r): %s' % (b, m, ma, what),
